@@ -73,7 +73,14 @@ def install_stubs(world, *, hashseed='0', msvc=False, tools=None,
     for n in sorted(os.listdir('/venv/bin')):
         if n.startswith('bfg9000-') or n == 'pysetenv':
             dst = os.path.join(world.bin, n)
-            if not os.path.lexists(dst):
+            if os.path.lexists(dst):
+                continue
+            if os.environ.get('BFGSIM_REPO'):
+                # helper tools (depfixer...) must come from the same tree
+                _write_exe(dst, '#!/bin/sh\nPYTHONPATH={} exec {} "$@"\n'
+                           .format(os.environ['BFGSIM_REPO'],
+                                   os.path.join('/venv/bin', n)))
+            else:
                 os.symlink(os.path.join('/venv/bin', n), dst)
     for prog in ('bfg9000', '9k'):
         _write_exe(
